@@ -1524,3 +1524,652 @@ Proof.
       + intros k []. }
   eexists. vm_compute. reflexivity.
 Qed.
+
+(* ------------------------------------------------------------------------------------------ the flat reading of URLs *)
+
+Fixpoint no_sep (s : string) : bool :=
+  match s with
+  | EmptyString => true
+  | String c r => negb (Ascii.eqb c "/"%char) && negb (Ascii.eqb c "\"%char) && no_sep r
+  end.
+
+Lemma norm_sep_no_sep : forall s, no_sep s = true -> norm_sep s = s /\ upto_last_slash s = None.
+Proof.
+  induction s as [|c r IH]; intros H; [split; reflexivity|]. cbn [no_sep] in H.
+  apply andb_true_iff in H. destruct H as [H Hr]. apply andb_true_iff in H. destruct H as [H1 H2].
+  destruct (IH Hr) as [IH1 IH2]. cbn [norm_sep upto_last_slash]. rewrite IH1, IH2.
+  destruct (Ascii.eqb c "\"%char); [discriminate|]. destruct (Ascii.eqb c "/"%char); [discriminate|]. split; reflexivity.
+Qed.
+
+Lemma upto_last_slash_dir : forall s, ends_with_slash s = true -> upto_last_slash s = Some s.
+Proof.
+  induction s as [|c r IH]; intros H; [discriminate|]. cbn [upto_last_slash]. destruct r as [|c' r'].
+  - cbn [ends_with_slash] in H. cbn [upto_last_slash]. rewrite H. reflexivity.
+  - rewrite IH; [reflexivity|]. exact H.
+Qed.
+
+Lemma append_nil_r : forall s, String.append s EmptyString = s.
+Proof. induction s as [|c r IH]; [reflexivity|]. cbn. rewrite IH. reflexivity. Qed.
+
+(* For a normalised directory and a plain file name, the code's key is directory ++ name and the base path handed
+   to the imported file's own imports is the directory again: the flat model's [mk_key] *)
+Lemma resolve_path_flat : forall dir name,
+  norm_sep dir = dir -> ends_with_slash dir = true -> no_sep name = true ->
+  import_key name dir = String.append dir name /\ new_base name dir = dir /\ normalise_path dir = dir.
+Proof.
+  intros dir name Hd He Hn. destruct (norm_sep_no_sep _ Hn) as [Hn1 Hn2].
+  unfold import_key, new_base, resolve_path, path_from_url, normalise_path. rewrite Hn1, Hn2, Hd.
+  rewrite (upto_last_slash_dir _ He). rewrite append_nil_r. rewrite He.
+  destruct dir; [discriminate|]. auto.
+Qed.
+
+(* ------------------------------------------------------------------------------------------ links after success *)
+
+(* links and library entries are never removed during a resolution *)
+Definition grow (st st' : state) : Prop :=
+  (forall o sid, has_link st o sid = true -> has_link st' o sid = true) /\ mono st st'.
+
+Lemma grow_refl : forall st, grow st st.
+Proof. intros st. split; [auto|apply mono_refl]. Qed.
+Lemma grow_trans : forall a b c, grow a b -> grow b c -> grow a c.
+Proof. intros a b c [L1 M1] [L2 M2]. split; [auto|eapply mono_trans; eauto]. Qed.
+Lemma grow_add_issue : forall st r it, grow st (add_issue st r it).
+Proof. intros. split; [auto|intros k m E; exact E]. Qed.
+
+Lemma has_link_set : forall st o sid, has_link (set_link st o sid) o sid = true.
+Proof.
+  intros st o sid. unfold has_link, set_link. cbn [links existsb fst snd].
+  assert (owner_eqb o o = true) as -> by (destruct o; cbn; [apply String.eqb_refl|reflexivity]).
+  rewrite Nat.eqb_refl. reflexivity.
+Qed.
+
+Lemma has_link_set_other : forall st o sid o' sid', has_link st o' sid' = true -> has_link (set_link st o sid) o' sid' = true.
+Proof. intros st o sid o' sid' H. unfold has_link, set_link in *. cbn [links existsb]. rewrite H. apply orb_true_r. Qed.
+
+Lemma fis_grow : forall strict fs st o sid url,
+  match fetch_import_source strict fs st o sid url with
+  | FMfail st1 => grow st st1
+  | FMok st1 _ sm => grow st st1 /\ has_link st1 o sid = true /\ lib_get (lib st1) (mk_key url) = Some sm
+  end.
+Proof.
+  intros strict fs st o sid url. unfold fetch_import_source, linked_model.
+  destruct (has_link st o sid) eqn:Hl.
+  - destruct (lib_get (lib st) (mk_key url)) eqn:Hg; [auto using grow_refl|].
+    unfold fetch_model. rewrite Hg. destruct (fs_get fs (mk_key url)); try apply grow_add_issue.
+    split; [|split; [apply has_link_set|cbn; rewrite String.eqb_refl; reflexivity]].
+    split; [intros; apply has_link_set_other; assumption|].
+    intros k m' E. cbn [lib set_link lib_add lib_get]. destruct (String.eqb (mk_key url) k) eqn:Ek; [|exact E].
+    apply String.eqb_eq in Ek. subst k. congruence.
+  - unfold fetch_model. destruct (lib_get (lib st) (mk_key url)) eqn:Hg.
+    + split; [|split; [apply has_link_set|exact Hg]]. split; [intros; apply has_link_set_other; assumption|intros k m' E; exact E].
+    + destruct (fs_get fs (mk_key url)); try apply grow_add_issue.
+      split; [|split; [apply has_link_set|cbn; rewrite String.eqb_refl; reflexivity]].
+      split; [intros; apply has_link_set_other; assumption|].
+      intros k m' E. cbn [lib set_link lib_add lib_get]. destruct (String.eqb (mk_key url) k) eqn:Ek; [|exact E].
+      apply String.eqb_eq in Ek. subst k. congruence.
+Qed.
+
+Lemma all_ok_grow {A : Type} (step : state -> A -> res (bool * state)) (l : list A) :
+  (forall a x b x', step x a = Ok (b, x') -> grow x x') ->
+  forall x b x', all_ok step l x = Ok (b, x') -> grow x x'.
+Proof.
+  intros Hs. induction l as [|a r IH]; intros x b x' E; cbn [all_ok] in E.
+  - inversion E; subst. apply grow_refl.
+  - destruct (step x a) as [[b1 x1]| |] eqn:E1; try discriminate. pose proof (Hs _ _ _ _ E1) as G1.
+    destruct b1; [eapply grow_trans; [exact G1|eapply IH; exact E]|inversion E; subst; exact G1].
+Qed.
+
+Lemma walk_comp_grow (imp : state -> comp -> res (bool * state)) :
+  (forall st c b st', imp st c = Ok (b, st') -> grow st st') ->
+  forall c st b st', walk_comp imp c st = Ok (b, st') -> grow st st'.
+Proof.
+  intros Himp c. induction c as [n i used kids IHk] using comp_ind'. intros st b st' E. cbn [walk_comp] in E.
+  destruct (negb (requires_imports (Comp n i used kids))); [inversion E; subst; apply grow_refl|].
+  destruct i as [p|]; [eapply Himp; exact E|].
+  revert st E. induction kids as [|k r IHr]; intros st E; [inversion E; subst; apply grow_refl|].
+  inversion IHk as [|k' r' Hk Hr]; subst.
+  destruct (walk_comp imp k st) as [[b1 st1]| |] eqn:E1; try discriminate. pose proof (Hk _ _ _ E1) as G1.
+  destruct b1; [eapply grow_trans; [exact G1|apply IHr; assumption]|inversion E; subst; exact G1].
+Qed.
+
+(* a successful fetch of an imported units leaves its import source linked; in any case the state only grows *)
+Lemma fetch_units_grow : forall fuel strict fs m0 st o hist u b st',
+  fetch_units fuel strict fs m0 st o hist u = Ok (b, st') ->
+  grow st st' /\
+  (b = true -> match u with UImp _ sid url _ => linked_model st' o sid url <> None | ULocal _ _ => True end).
+Proof.
+  induction fuel as [|f IH]; intros strict fs m0 st o hist u b st' E;
+    destruct u as [n refs|n sid url ref]; cbn [fetch_units] in E;
+    try (inversion E; subst; split; [apply grow_refl|auto]); try discriminate.
+  unfold fetch_units_body in E. pose proof (fis_grow strict fs st o sid url) as Hfis.
+  destruct (fetch_import_source strict fs st o sid url) as [st1|st1 errs sm].
+  { inversion E; subst. split; [exact Hfis|discriminate]. }
+  destruct Hfis as (G1 & Hl1 & Hg1).
+  assert (Hlinked : forall x, grow st1 x -> linked_model x o sid url <> None).
+  { intros x [Lx Mx]. unfold linked_model. rewrite (Lx _ _ Hl1), (Mx _ _ Hg1). discriminate. }
+  assert (Hadd : forall r it, grow st (add_issue st1 r it)) by (intros; eapply grow_trans; [exact G1|apply grow_add_issue]).
+  destruct (existsb (related_units ref) errs); [inversion E; subst; split; [apply Hadd|discriminate]|].
+  destruct (check_cycle st1 m0 hist (fetch_epoch o url)); [inversion E; subst; split; [apply Hadd|discriminate]|].
+  destruct (find_units (m_units sm) ref) as [su|]; [|inversion E; subst; split; [apply Hadd|discriminate]].
+  destruct (fetch_units f strict fs m0 st1 (Some (mk_key url)) (hist ++ [fetch_epoch o url]) su) as [[b2 st2]| |] eqn:E2;
+    try discriminate.
+  destruct (IH _ _ _ _ _ _ _ _ _ E2) as (G2 & _).
+  destruct b2; [|inversion E; subst; split; [eapply grow_trans; eauto|discriminate]].
+  assert (G3 : grow st2 st').
+  { eapply all_ok_grow; [|exact E]. intros r x b' x' Es. cbv beta in Es.
+    destruct (is_std r); [inversion Es; subst; apply grow_refl|].
+    destruct (find_units (m_units sm) r); [|inversion Es; subst; apply grow_add_issue].
+    apply (IH _ _ _ _ _ _ _ _ _ Es). }
+  split; [eapply grow_trans; [exact G1|eapply grow_trans; eauto]|].
+  intros _. apply Hlinked. eapply grow_trans; eauto.
+Qed.
+
+Lemma fetch_comp_grow : forall fuel strict fs m0 st o hist c b st',
+  fetch_comp fuel strict fs m0 st o hist c = Ok (b, st') -> grow st st'.
+Proof.
+  induction fuel as [|f IH]; intros strict fs m0 st o hist c b st' E; cbn [fetch_comp] in E; [discriminate|].
+  eapply walk_comp_grow; [|exact E]. clear st c b st' E. intros st c b st' E.
+  destruct c as [name [[[sid url] ref]|] used kids]; [|inversion E; subst; apply grow_refl].
+  unfold fetch_comp_body in E. pose proof (fis_grow strict fs st o sid url) as Hfis.
+  destruct (fetch_import_source strict fs st o sid url) as [st1|st1 errs sm]; [inversion E; subst; exact Hfis|].
+  destruct Hfis as (G1 & _).
+  assert (Hadd : forall r it, grow st (add_issue st1 r it)) by (intros; eapply grow_trans; [exact G1|apply grow_add_issue]).
+  destruct (existsb (related_comp (find_comp (m_comps sm) ref)) errs); [inversion E; subst; apply Hadd|].
+  destruct (check_cycle st1 m0 hist (fetch_epoch o url)); [inversion E; subst; apply Hadd|].
+  destruct (find_comp (m_comps sm) ref) as [sc|]; [|inversion E; subst; apply Hadd].
+  destruct (fetch_comp f strict fs m0 st1 (Some (mk_key url)) (hist ++ [fetch_epoch o url]) sc) as [[b2 st2]| |] eqn:E2;
+    try discriminate.
+  pose proof (IH _ _ _ _ _ _ _ _ _ E2) as G2.
+  destruct b2; [|inversion E; subst; eapply grow_trans; eauto].
+  destruct (all_ok (fun st k => fetch_comp f strict fs m0 st (Some (mk_key url)) (hist ++ [fetch_epoch o url]) k)
+                   (ckids sc) st2) as [[b3 st3]| |] eqn:E3; try discriminate.
+  assert (G3 : grow st2 st3).
+  { eapply all_ok_grow; [|exact E3]. intros k x b' x' Es. cbv beta in Es. eapply IH. exact Es. }
+  destruct b3; [|inversion E; subst; eapply grow_trans; [exact G1|eapply grow_trans; eauto]].
+  assert (G4 : grow st3 st').
+  { eapply all_ok_grow; [|exact E]. intros n x b' x' Es. cbv beta in Es.
+    destruct (is_std n); [inversion Es; subst; apply grow_refl|].
+    destruct (find_units (m_units sm) n); [|inversion Es; subst; apply grow_add_issue].
+    eapply fetch_units_grow. exact Es. }
+  eapply grow_trans; [exact G1|]. eapply grow_trans; [exact G2|]. eapply grow_trans; eauto.
+Qed.
+
+(* the import source of a top-level imported component is linked once its fetch succeeded *)
+Lemma fetch_comp_link : forall fuel strict fs m0 st n sid url ref used kids st',
+  fetch_comp fuel strict fs m0 st None [] (Comp n (Some (sid, url, ref)) used kids) = Ok (true, st') ->
+  linked_model st' None sid url <> None.
+Proof.
+  intros fuel strict fs m0 st n sid url ref used kids st' E. destruct fuel as [|f]; [discriminate|].
+  cbn [fetch_comp walk_comp requires_imports negb] in E. unfold fetch_comp_body in E.
+  pose proof (fis_grow strict fs st None sid url) as Hfis.
+  destruct (fetch_import_source strict fs st None sid url) as [st1|st1 errs sm]; [discriminate|].
+  destruct Hfis as (G1 & Hl1 & Hg1).
+  assert (Hlinked : forall x, grow st1 x -> linked_model x None sid url <> None).
+  { intros x [Lx Mx]. unfold linked_model. rewrite (Lx _ _ Hl1), (Mx _ _ Hg1). discriminate. }
+  destruct (existsb (related_comp (find_comp (m_comps sm) ref)) errs); [discriminate|].
+  destruct (check_cycle st1 m0 [] (fetch_epoch None url)); [discriminate|].
+  destruct (find_comp (m_comps sm) ref) as [sc|]; [|discriminate].
+  destruct (fetch_comp f strict fs m0 st1 (Some (mk_key url)) ([] ++ [fetch_epoch None url]) sc) as [[b2 st2]| |] eqn:E2;
+    try discriminate.
+  pose proof (fetch_comp_grow _ _ _ _ _ _ _ _ _ _ E2) as G2. destruct b2; [|discriminate].
+  destruct (all_ok (fun st k => fetch_comp f strict fs m0 st (Some (mk_key url)) ([] ++ [fetch_epoch None url]) k)
+                   (ckids sc) st2) as [[b3 st3]| |] eqn:E3; try discriminate.
+  assert (G3 : grow st2 st3).
+  { eapply all_ok_grow; [|exact E3]. intros k x b' x' Es. cbv beta in Es. eapply fetch_comp_grow. exact Es. }
+  destruct b3; [|discriminate].
+  assert (G4 : grow st3 st').
+  { eapply all_ok_grow; [|exact E]. intros un x b' x' Es. cbv beta in Es.
+    destruct (is_std un); [inversion Es; subst; apply grow_refl|].
+    destruct (find_units (m_units sm) un); [|inversion Es; subst; apply grow_add_issue].
+    eapply fetch_units_grow. exact Es. }
+  apply Hlinked. eapply grow_trans; [exact G2|]. eapply grow_trans; eauto.
+Qed.
+
+Lemma grow_retarget : forall st it, grow st (retarget_last st it).
+Proof. intros st it. unfold retarget_last. destruct (issues_rev st); [apply grow_refl|]. split; [auto|intros k m E; exact E]. Qed.
+
+Lemma resolve_loop_links {A : Type} (fetch : state -> A -> res (bool * state)) (item : A -> iitem) (Q : state -> A -> Prop) :
+  (forall st a b st', fetch st a = Ok (b, st') -> grow st st' /\ (b = true -> Q st' a)) ->
+  (forall st st' a, grow st st' -> Q st a -> Q st' a) ->
+  forall l acc st b st', resolve_loop fetch item l acc st = Ok (b, st') ->
+    grow st st' /\ (b = true -> forall a, In a l -> Q st' a).
+Proof.
+  intros Hf HQ. induction l as [|a r IH]; intros acc st b st' E; cbn [resolve_loop] in E.
+  - inversion E; subst. split; [apply grow_refl|intros _ a []].
+  - destruct (fetch st a) as [[b1 st1]| |] eqn:E1; try discriminate.
+    destruct (Hf _ _ _ _ E1) as (G1 & Hq). destruct b1.
+    + destruct (IH _ _ _ _ E) as (G2 & H2). split; [eapply grow_trans; eauto|].
+      intros Hb a' [<-|Ha']; [eapply HQ; [exact G2|apply Hq; reflexivity]|apply H2; assumption].
+    + destruct (IH _ _ _ _ E) as (G2 & H2). split; [eapply grow_trans; [exact G1|eapply grow_trans; [apply grow_retarget|exact G2]]|].
+      intros Hb. exfalso.
+      (* the accumulator is false from here on *)
+      clear -E Hb. revert st1 E. generalize (item a). intros it st1.
+      generalize (retarget_last st1 it). clear st1. induction r as [|a' r' IHr]; intros s E; cbn [resolve_loop] in E.
+      * inversion E; subst. discriminate.
+      * destruct (fetch s a') as [[b2 s2]| |]; try discriminate. destruct b2; eapply IHr; exact E.
+Qed.
+
+Definition units_linked (st : state) (u : units) : Prop :=
+  match u with UImp _ sid url _ => linked_model st None sid url <> None | ULocal _ _ => True end.
+Definition comp_linked (st : state) (c : comp) : Prop :=
+  match c with Comp _ (Some (sid, url, _)) _ _ => linked_model st None sid url <> None | Comp _ None _ _ => True end.
+
+Lemma linked_grow : forall st st' o sid url, grow st st' -> linked_model st o sid url <> None -> linked_model st' o sid url <> None.
+Proof.
+  intros st st' o sid url [L M] H. unfold linked_model in *. destruct (has_link st o sid) eqn:Hl; [|congruence].
+  rewrite (L _ _ Hl). destruct (lib_get (lib st) (mk_key url)) eqn:Hg; [|congruence]. rewrite (M _ _ Hg). discriminate.
+Qed.
+
+(* resolveImports = true => every import source of the model has its model: the first thing
+   hasUnresolvedImports() / isResolved() test.  (First level only; see resolve_true_post_refuted for the rest.) *)
+Lemma resolve_true_links : forall fuel strict fs st m0 st',
+  resolve_imports fuel strict fs st m0 = Ok (true, st') ->
+  (forall u, In u (imported_units m0) -> units_linked st' u) /\
+  (forall c, In c (imported_comps m0) -> comp_linked st' c).
+Proof.
+  intros fuel strict fs st m0 st' E. unfold resolve_imports in E.
+  destruct (resolve_loop (fun st u => fetch_units fuel strict fs m0 st None [] u) (fun u => ItUnits None (uname u))
+                         (imported_units m0) true (clear_origin_links (clear_issues st)))
+    as [[b1 st1]| |] eqn:E1; try discriminate.
+  assert (HQu : forall s s' u, grow s s' -> units_linked s u -> units_linked s' u).
+  { intros s s' u G H. destruct u; [exact I|]. eapply linked_grow; eauto. }
+  destruct (resolve_loop_links _ _ units_linked
+              (fun s u b s' Es => fetch_units_grow fuel strict fs m0 s None [] u b s' Es) HQu _ _ _ _ _ E1) as (G1 & H1).
+  assert (Hc : forall s c b s', fetch_comp fuel strict fs m0 s None [] c = Ok (b, s') ->
+                                grow s s' /\ (b = true -> comp_linked s' c)).
+  { intros s c b s' Es. split; [eapply fetch_comp_grow; exact Es|]. intros ->.
+    destruct c as [n [[[sid url] ref]|] used kids]; [|exact I]. eapply fetch_comp_link. exact Es. }
+  assert (HQc : forall s s' c, grow s s' -> comp_linked s c -> comp_linked s' c).
+  { intros s s' c G H. destruct c as [n [[[sid url] ref]|] used kids]; [|exact I]. eapply linked_grow; eauto. }
+  destruct (resolve_loop_links _ _ comp_linked Hc HQc _ _ _ _ _ E) as (G2 & H2).
+  assert (Hb1 : b1 = true).
+  { destruct b1; [reflexivity|]. exfalso. clear -E.
+    revert st1 E. induction (imported_comps m0) as [|c r IH]; intros s E; cbn [resolve_loop] in E.
+    - inversion E.
+    - destruct (fetch_comp fuel strict fs m0 s None [] c) as [[b2 s2]| |]; try discriminate. destruct b2; eapply IH; exact E. }
+  split.
+  - intros u Hu. specialize (H1 Hb1 u Hu). destruct u; [exact I|]. eapply linked_grow; eauto.
+  - intros c Hc'. apply H2; auto.
+Qed.
+
+(* ------------------------------------------------------------------------------------------ the scan is total *)
+
+(* [fine P r]: r is not out of fuel, and if it is a value the value satisfies P *)
+Definition fine {A : Type} (P : A -> Prop) (r : res A) : Prop :=
+  match r with Ok a => P a | Crash => True | OutOfFuel => False end.
+
+Lemma fine_weaken {A : Type} (P Q : A -> Prop) (r : res A) : (forall a, P a -> Q a) -> fine P r -> fine Q r.
+Proof. destruct r; cbn; auto. Qed.
+
+Lemma fine_res_map {A B : Type} (f : A -> B) (P : B -> Prop) (r : res A) : fine (fun a => P (f a)) r -> fine P (res_map f r).
+Proof. destruct r; cbn; auto. Qed.
+
+Lemma all_ok_fine {A X : Type} (P : X -> Prop) (step : X -> A -> res (bool * X)) (l : list A) :
+  (forall a, In a l -> forall x, P x -> fine (fun r => P (snd r)) (step x a)) ->
+  forall x, P x -> fine (fun r => P (snd r)) (all_ok step l x).
+Proof.
+  induction l as [|a r IH]; intros Hs x Hx; cbn [all_ok]; [exact Hx|].
+  pose proof (Hs a (or_introl eq_refl) x Hx) as H. destruct (step x a) as [[b x']| |]; cbn in *; auto.
+  destruct b; [|exact H]. apply IH; [|exact H]. intros a' Ha'. apply Hs. right. exact Ha'.
+Qed.
+
+Lemma none_found_fine {A X : Type} (P : X -> Prop) (step : X -> A -> res (bool * X)) (l : list A) :
+  (forall a, In a l -> forall x, P x -> fine (fun r => P (snd r)) (step x a)) ->
+  forall x, P x -> fine (fun r => P (snd r)) (none_found step l x).
+Proof.
+  induction l as [|a r IH]; intros Hs x Hx; cbn [none_found]; [exact Hx|].
+  pose proof (Hs a (or_introl eq_refl) x Hx) as H. destruct (step x a) as [[b x']| |]; cbn in *; auto.
+  destruct b; [exact H|]. apply IH; [|exact H]. intros a' Ha'. apply Hs. right. exact Ha'.
+Qed.
+
+Lemma imported_comps_of_sub : forall c x, In x (imported_comps_of c) -> In x (subcomps c).
+Proof.
+  induction c as [n i u kids IHk] using comp_ind'. intros x Hx. cbn [imported_comps_of] in Hx. rewrite subcomps_eq.
+  apply in_app_or in Hx. destruct Hx as [Hx|Hx].
+  - destruct i; [|destruct Hx]. destruct Hx as [<-|[]]. left. reflexivity.
+  - right. induction kids as [|k r IHr]; [destruct Hx|]. inversion IHk as [|k' r' Hk Hr]; subst. cbn [flat_map].
+    apply in_app_or in Hx. apply in_or_app. destruct Hx as [Hx|Hx]; [left; apply Hk; exact Hx|right; apply IHr; assumption].
+Qed.
+
+Lemma imported_comps_all : forall m x, In x (imported_comps m) -> In x (all_comps m).
+Proof.
+  intros m x Hx. unfold imported_comps, all_comps in *. apply in_flat_map in Hx. destruct Hx as (c & Hc & Hx).
+  apply in_flat_map. exists c. split; [exact Hc|apply imported_comps_of_sub; exact Hx].
+Qed.
+
+Section ScanTotal.
+  Variable fx : fixes.
+  Variable st : state.
+  Variable m0 : model.
+  (* ranks on (model, entity name): "no units / component depends on itself" *)
+  Variable urank : owner -> string -> nat.
+  Variable crank : owner -> string -> nat.
+  Variable Bu Bc : nat.
+
+  Definition owns (o : owner) (cm : model) : Prop := content st m0 o = Some cm.
+
+  Hypothesis U_bound : forall o n, urank o n < Bu.
+  Hypothesis C_bound : forall o n, crank o n < Bc.
+  Hypothesis U_local : forall o cm n refs r cu, owns o cm -> In (ULocal n refs) (m_units cm) -> In r refs ->
+    find_units (m_units cm) r = Some cu -> urank o (uname cu) < urank o n.
+  Hypothesis U_imp : forall o cm n sid url ref sm iu, owns o cm -> In (UImp n sid url ref) (m_units cm) ->
+    linked_model st o sid url = Some sm -> find_units (m_units sm) ref = Some iu ->
+    urank (Some (mk_key url)) (uname iu) < urank o n.
+  Hypothesis C_imp : forall o cm n sid url ref used kids sm ic, owns o cm ->
+    In (Comp n (Some (sid, url, ref)) used kids) (all_comps cm) ->
+    linked_model st o sid url = Some sm -> find_comp (m_comps sm) ref = Some ic ->
+    crank (Some (mk_key url)) (cname ic) < crank o n.
+  Hypothesis C_kid : forall o cm c k, owns o cm -> In c (all_comps cm) -> In k (ckids c) ->
+    crank o (cname k) <= crank o (cname c).
+
+  (* states that differ from st by issues only *)
+  Definition same_ll (s : state) : Prop := links s = links st /\ lib s = lib st.
+
+  Lemma same_ll_linked : forall s o sid url, same_ll s -> linked_model s o sid url = linked_model st o sid url.
+  Proof. intros s o sid url [L B]. unfold linked_model, has_link. rewrite L, B. reflexivity. Qed.
+
+  Lemma linked_owns : forall o sid url sm, linked_model st o sid url = Some sm -> owns (Some (mk_key url)) sm.
+  Proof. intros o sid url sm H. unfold linked_model in H. destruct (has_link st o sid); [exact H|discriminate]. Qed.
+
+  Lemma same_ll_add : forall s r it, same_ll s -> same_ll (add_issue s r it).
+  Proof. intros s r it H. exact H. Qed.
+
+  Lemma units_test_total : forall fuel ty s o cm hist u,
+    same_ll s -> owns o cm -> In u (m_units cm) -> urank o (uname u) < fuel ->
+    fine (fun _ => True) (units_test fx fuel ty s m0 o cm hist u).
+  Proof.
+    induction fuel as [|f IH]; intros ty s o cm hist u Hs Ho Hin Hr; [lia|].
+    cbn [units_test]. destruct u as [n refs|n sid url ref].
+    - apply (fine_weaken (fun r => True)); [auto|].
+      apply (all_ok_fine (fun _ => True)); [|exact I]. intros r Hrin x _.
+      destruct (is_std r); [exact I|]. destruct (find_units (m_units cm) r) as [cu|] eqn:Ecu.
+      + apply (fine_weaken (fun _ => True)); [auto|]. apply IH; auto.
+        * eapply find_units_In; eauto.
+        * pose proof (U_local _ _ _ _ _ _ Ho Hin Hrin Ecu). cbn [uname] in Hr. lia.
+      + destruct ty; exact I.
+    - rewrite (same_ll_linked _ _ _ _ Hs). destruct (linked_model st o sid url) as [sm|] eqn:El; [|exact I].
+      destruct (find_units (m_units sm) ref) as [iu|] eqn:Eiu; [|exact I].
+      destruct (check_cycle s m0 hist _); [exact I|].
+      assert (G : fine (fun _ => True) (units_test fx f ty s m0 (Some (mk_key url)) sm
+                 (hist ++ [{| e_src := importee_url hist url; e_dst := url; e_srcm := o; e_dstm := Some (mk_key url) |}]) iu)).
+      { apply IH; auto.
+        - eapply linked_owns; eauto.
+        - eapply find_units_In; eauto.
+        - pose proof (U_imp _ _ _ _ _ _ _ _ Ho Hin El Eiu). cbn [uname] in Hr. lia. }
+      destruct (units_test fx f ty s m0 (Some (mk_key url)) sm _ iu) as [[b h]| |]; cbn in *; auto.
+  Qed.
+
+  Lemma cufc_total : forall fuel o cm hist s u,
+    same_ll s -> owns o cm -> In u (m_units cm) -> urank o (uname u) < fuel ->
+    fine (fun r => same_ll (snd (snd r))) (check_units_for_cycles fuel m0 o cm (hist, s) u).
+  Proof.
+    induction fuel as [|f IH]; intros o cm hist s u Hs Ho Hin Hr; [lia|].
+    cbn [check_units_for_cycles]. destruct u as [n refs|n sid url ref].
+    - apply (none_found_fine (fun hs => same_ll (snd hs))); [|exact Hs].
+      intros r Hrin [h x] Hx. cbn [snd] in Hx. destruct (find_units (m_units cm) r) as [cu|] eqn:Ecu; [|exact Hx].
+      apply IH; auto.
+      + eapply find_units_In; eauto.
+      + pose proof (U_local _ _ _ _ _ _ Ho Hin Hrin Ecu). cbn [uname] in Hr. lia.
+    - destruct (check_cycle s m0 hist (scan_epoch s o sid url)); [exact Hs|].
+      rewrite (same_ll_linked _ _ _ _ Hs). destruct (linked_model st o sid url) as [sm|] eqn:El; [|exact Hs].
+      destruct (find_units (m_units sm) ref) as [iu|] eqn:Eiu; [|exact Hs].
+      apply IH; auto.
+      + eapply linked_owns; eauto.
+      + eapply find_units_In; eauto.
+      + pose proof (U_imp _ _ _ _ _ _ _ _ Ho Hin El Eiu). cbn [uname] in Hr. lia.
+  Qed.
+
+  Lemma ccfc_total : forall fuel s o cm hist c,
+    same_ll s -> owns o cm -> In c (all_comps cm) -> crank o (cname c) < fuel ->
+    fine (fun r => same_ll (snd r)) (check_comp_for_cycles fuel s m0 o hist c).
+  Proof.
+    induction fuel as [|f IH]; intros s o cm hist c Hs Ho Hin Hr; [lia|].
+    cbn [check_comp_for_cycles]. destruct c as [n [[[sid url] ref]|] used kids]; [|exact I].
+    destruct (check_cycle s m0 hist (scan_epoch s o sid url)); [exact Hs|].
+    rewrite (same_ll_linked _ _ _ _ Hs). destruct (linked_model st o sid url) as [sm|] eqn:El; [|exact Hs].
+    destruct (find_comp (m_comps sm) ref) as [ic|] eqn:Eic; [|exact Hs].
+    destruct (cimp ic); [|exact Hs].
+    apply IH with (cm := sm); auto.
+    - eapply linked_owns; eauto.
+    - eapply find_comp_sub; eauto.
+    - pose proof (C_imp _ _ _ _ _ _ _ _ _ _ Ho Hin El Eic). cbn [cname] in Hr. lia.
+  Qed.
+
+  Definition in_model (cm : model) (l : list uref) : Prop := forall u, In (InModel u) l -> In u (m_units cm).
+
+  Lemma in_model_app : forall cm a b, in_model cm a -> in_model cm b -> in_model cm (a ++ b).
+  Proof. intros cm a b Ha Hb u Hu. apply in_app_or in Hu. destruct Hu; auto. Qed.
+
+  Lemma referenced_units_total : forall fuel o cm u,
+    owns o cm -> In u (m_units cm) -> urank o (uname u) < fuel ->
+    fine (in_model cm) (referenced_units fx fuel cm u).
+  Proof.
+    induction fuel as [|f IH]; intros o cm u Ho Hin Hr; [lia|].
+    cbn [referenced_units]. destruct u as [n refs|n sid url ref]; [|intros u []].
+    match goal with |- fine _ (?F refs) =>
+      assert (L : forall l, (forall r, In r l -> In r refs) -> fine (in_model cm) (F l)); [|apply L; auto] end.
+    intros l. induction l as [|r rest IHl]; intros Hsub; [intros u []|].
+    destruct (is_std r); [apply IHl; intros; apply Hsub; right; assumption|].
+    destruct (find_units (m_units cm) r) as [ru|] eqn:Eru.
+    - assert (G : fine (in_model cm) (referenced_units fx f cm ru)).
+      { apply IH with (o := o); auto.
+        - eapply find_units_In; eauto.
+        - pose proof (U_local _ _ _ _ _ _ Ho Hin (Hsub r (or_introl eq_refl)) Eru). cbn [uname] in Hr. lia. }
+      destruct (referenced_units fx f cm ru) as [l1| |]; cbn [fine] in G |- *; auto.
+      assert (G2 := IHl (fun x Hx => Hsub x (or_intror Hx))).
+      match goal with |- fine _ (match ?X with _ => _ end) => destruct X as [l2| |] end; cbn [fine] in G2 |- *; auto.
+      apply in_model_app; [exact G|].
+      intros u [E|Hu]; [inversion E; subst; eapply find_units_In; eauto|apply G2; exact Hu].
+    - destruct (fx_nullref fx); [|exact I]. apply IHl. intros; apply Hsub; right; assumption.
+  Qed.
+
+  Lemma units_used_total : forall fuel o cm c, owns o cm -> Bu <= fuel -> fine (in_model cm) (units_used fx fuel cm c).
+  Proof.
+    intros fuel o cm c Ho Hf. induction c as [n i used kids IHk] using comp_ind'. cbn [units_used].
+    assert (Hv : fine (in_model cm)
+              ((fix vars (l : list string) : res (list uref) :=
+                  match l with
+                  | [] => Ok []
+                  | n0 :: r =>
+                    if is_std n0 then vars r
+                    else match (match find_units (m_units cm) n0 with
+                                | Some mu => match referenced_units fx fuel cm mu with
+                                             | Ok l0 => Ok (l0 ++ [InModel mu])
+                                             | other => other
+                                             end
+                                | None => Ok [Standalone n0]
+                                end) with
+                         | Ok l1 => match vars r with Ok l2 => Ok (l1 ++ l2) | other => other end
+                         | other => other
+                         end
+                  end) used)).
+    { induction used as [|un r IHr]; [intros u []|].
+      destruct (is_std un); [exact IHr|].
+      destruct (find_units (m_units cm) un) as [mu|] eqn:Emu.
+      - assert (G : fine (in_model cm) (referenced_units fx fuel cm mu)).
+        { apply referenced_units_total with (o := o); auto; [eapply find_units_In; eauto|].
+          pose proof (U_bound o (uname mu)). lia. }
+        destruct (referenced_units fx fuel cm mu) as [l0| |]; cbn [fine] in G |- *; auto.
+        match goal with |- fine _ (match ?X with _ => _ end) => destruct X as [l2| |] end; cbn [fine] in IHr |- *; auto.
+        apply in_model_app; [|exact IHr]. apply in_model_app; [exact G|].
+        intros u [E|[]]. inversion E; subst. eapply find_units_In; eauto.
+      - match goal with |- fine _ (match ?X with _ => _ end) => destruct X as [l2| |] end; cbn [fine] in IHr |- *; auto.
+        apply in_model_app; [|exact IHr]. intros u [E|[]]. discriminate. }
+    match goal with |- fine _ (match ?X with _ => _ end) => destruct X as [l1| |] end; cbn [fine] in Hv |- *; auto.
+    assert (Hg : fine (in_model cm)
+              ((fix go (l : list comp) : res (list uref) :=
+                  match l with
+                  | [] => Ok []
+                  | k :: r => match units_used fx fuel cm k with
+                              | Ok a => match go r with Ok b => Ok (a ++ b) | other => other end
+                              | other => other
+                              end
+                  end) kids)).
+    { induction kids as [|k r IHr]; [intros u []|]. inversion IHk as [|k' r' Hk Hr]; subst.
+      destruct (units_used fx fuel cm k) as [a| |]; cbn [fine] in Hk |- *; auto.
+      specialize (IHr Hr).
+      match goal with |- fine _ (match ?X with _ => _ end) => destruct X as [b| |] end; cbn [fine] in IHr |- *; auto.
+      apply in_model_app; assumption. }
+    match goal with |- fine _ (match ?X with _ => _ end) => destruct X as [l2| |] end; cbn [fine] in Hg |- *; auto.
+    apply in_model_app; assumption.
+  Qed.
+
+  Lemma uref_test_total : forall fuel ty s o cm x, same_ll s -> owns o cm -> Bu <= fuel ->
+    (forall u, x = InModel u -> In u (m_units cm)) -> fine (fun _ => True) (uref_test fx fuel ty s m0 o cm x).
+  Proof.
+    intros fuel ty s o cm x Hs Ho Hf Hx. destruct x as [u|n]; cbn [uref_test]; [|destruct ty; exact I].
+    apply fine_res_map. apply (fine_weaken (fun _ => True)); [auto|].
+    apply units_test_total; auto. pose proof (U_bound o (uname u)). lia.
+  Qed.
+
+  Lemma comp_walk_fine (imp units_ok : comp -> res bool) :
+    forall c, (forall c', In c' (subcomps c) -> fine (fun _ => True) (imp c')) ->
+              (forall c', In c' (subcomps c) -> fine (fun _ => True) (units_ok c')) ->
+              fine (fun _ => True) (comp_walk imp units_ok c).
+  Proof.
+    induction c as [n i used kids IHk] using comp_ind'. intros Hi Hu. cbn [comp_walk].
+    destruct i as [p|]; [apply Hi; apply subcomps_self|].
+    pose proof (Hu _ (subcomps_self _)) as H0. destruct (units_ok (Comp n None used kids)) as [b| |]; cbn [fine] in H0 |- *; auto.
+    destruct b; [|exact I].
+    assert (Hi' : forall c', In c' (flat_map subcomps kids) -> fine (fun _ => True) (imp c')).
+    { intros c' Hc'. apply Hi. rewrite subcomps_eq. right. exact Hc'. }
+    assert (Hu' : forall c', In c' (flat_map subcomps kids) -> fine (fun _ => True) (units_ok c')).
+    { intros c' Hc'. apply Hu. rewrite subcomps_eq. right. exact Hc'. }
+    clear H0 Hi Hu. induction kids as [|k r IHr]; [exact I|].
+    inversion IHk as [|k' r' Hk Hr]; subst.
+    assert (G : fine (fun _ => True) (comp_walk imp units_ok k)).
+    { apply Hk; intros c' Hc'; [apply Hi'|apply Hu']; cbn [flat_map]; apply in_or_app; left; exact Hc'. }
+    destruct (comp_walk imp units_ok k) as [b| |]; cbn [fine] in G |- *; auto. destruct b; [|exact I].
+    apply IHr; [exact Hr| |]; intros c' Hc'; [apply Hi'|apply Hu']; cbn [flat_map]; apply in_or_app; right; exact Hc'.
+  Qed.
+
+  Lemma subcomps_rank : forall o cm c c', owns o cm -> In c (all_comps cm) -> In c' (subcomps c) ->
+    In c' (all_comps cm) /\ crank o (cname c') <= crank o (cname c).
+  Proof.
+    intros o cm c. induction c as [n i used kids IHk] using comp_ind'. intros c' Ho Hin Hc'.
+    rewrite subcomps_eq in Hc'. destruct Hc' as [<-|Hc']; [split; [exact Hin|lia]|].
+    apply in_flat_map in Hc'. destruct Hc' as (k & Hk & Hc'). rewrite Forall_forall in IHk.
+    destruct (kids_child_comps cm _ k Hin Hk) as (_ & Hka).
+    destruct (IHk k Hk c' Ho Hka Hc') as (H1 & H2). split; [exact H1|].
+    pose proof (C_kid _ _ _ k Ho Hin Hk). lia.
+  Qed.
+
+  Lemma comp_test_total : forall fuel ty s o cm hist c,
+    same_ll s -> owns o cm -> In c (all_comps cm) -> crank o (cname c) + Bu < fuel ->
+    fine (fun _ => True) (comp_test fx fuel ty s m0 o cm hist c).
+  Proof.
+    induction fuel as [|f IH]; intros ty s o cm hist c Hs Ho Hin Hr; [lia|].
+    cbn [comp_test]. apply comp_walk_fine.
+    - intros c' Hc'. destruct (subcomps_rank _ _ _ _ Ho Hin Hc') as (Hin' & Hrk).
+      destruct c' as [n [[[sid url] ref]|] used kids]; [|exact I].
+      rewrite (same_ll_linked _ _ _ _ Hs). destruct (linked_model st o sid url) as [sm|] eqn:El; [|exact I].
+      destruct (find_comp (m_comps sm) ref) as [ic|] eqn:Eic; [|exact I].
+      destruct (check_cycle s m0 hist _); [exact I|].
+      apply IH; auto.
+      + eapply linked_owns; eauto.
+      + eapply find_comp_sub; eauto.
+      + pose proof (C_imp _ _ _ _ _ _ _ _ _ _ Ho Hin' El Eic). cbn [cname] in Hrk. lia.
+    - intros c' _.
+      pose proof (units_used_total (S f) o cm c' Ho ltac:(lia)) as G.
+      destruct (units_used fx (S f) cm c') as [us| |]; cbn [fine] in G |- *; auto.
+      apply fine_res_map. apply (fine_weaken (fun r => True)); [auto|].
+      apply (all_ok_fine (fun _ => True)); [|exact I]. intros x Hx [] _. unfold unit_step.
+      apply fine_res_map. apply (fine_weaken (fun _ => True)); [auto|].
+      apply uref_test_total; auto; [lia|]. intros u ->. apply G. exact Hx.
+  Qed.
+
+  Lemma model_test_total : forall fuel ty s, same_ll s -> Bu + Bc <= fuel -> fine (fun _ => True) (model_test fx fuel ty s m0).
+  Proof.
+    intros fuel ty s Hs Hf. unfold model_test.
+    assert (Ho : owns None m0) by reflexivity.
+    assert (G1 : fine (fun r => True)
+                   (all_ok (unit_step (fun u => res_map fst (units_test fx fuel ty s m0 None m0 [] u))) (m_units m0) tt)).
+    { apply (fine_weaken (fun r => True)); [auto|]. apply (all_ok_fine (fun _ => True)); [|exact I].
+      intros u Hu [] _. unfold unit_step. apply fine_res_map. apply fine_res_map.
+      apply (fine_weaken (fun _ => True)); [auto|]. apply units_test_total; auto.
+      pose proof (U_bound None (uname u)). lia. }
+    destruct (all_ok _ (m_units m0) tt) as [[b []]| |]; cbn [fine] in G1 |- *; auto.
+    destruct b; [|exact I]. apply fine_res_map. apply (fine_weaken (fun r => True)); [auto|].
+    apply (all_ok_fine (fun _ => True)); [|exact I]. intros c Hc [] _. unfold unit_step. apply fine_res_map.
+    apply (fine_weaken (fun _ => True)); [auto|]. apply comp_test_total; auto.
+    - unfold all_comps. apply in_flat_map. exists c. split; [exact Hc|apply subcomps_self].
+    - pose proof (C_bound None (cname c)). lia.
+  Qed.
+
+  (* flattenModel's pre-checks return (with a value or with the null dereference of finding
+     C07-null-deref-dangling-units-ref) whenever no units and no component depends on itself *)
+  Lemma flatten_precheck_total : forall fuel, Bu + Bc <= fuel -> flatten_precheck fx fuel st m0 <> OutOfFuel.
+  Proof.
+    intros fuel Hf. assert (Ho : owns None m0) by reflexivity.
+    assert (Hs0 : same_ll (clear_issues st)) by (split; reflexivity).
+    assert (G : fine (fun r => same_ll (snd r)) (has_import_issues fx fuel (clear_issues st) m0)).
+    { unfold has_import_issues.
+      assert (G1 : fine (fun r => same_ll (snd r))
+                 (none_found (fun s u => res_map (fun r => (fst r, snd (snd r)))
+                                                 (check_units_for_cycles fuel m0 None m0 ([], s) u))
+                             (imported_units m0) (clear_issues st))).
+      { apply (none_found_fine same_ll); [|exact Hs0]. intros u Hu x Hx. apply fine_res_map. cbn [snd].
+        apply cufc_total; auto.
+        - unfold imported_units in Hu. apply filter_In in Hu. apply Hu.
+        - pose proof (U_bound None (uname u)). lia. }
+      destruct (none_found _ (imported_units m0) (clear_issues st)) as [[b1 s1]| |]; cbn [fine] in G1 |- *; auto.
+      destruct b1; [exact G1|].
+      assert (G2 : fine (fun r => same_ll (snd r))
+                 (none_found (fun s c => check_comp_for_cycles fuel s m0 None [] c) (imported_comps m0) s1)).
+      { apply (none_found_fine same_ll); [|exact G1]. intros c Hc x Hx.
+        apply ccfc_total with (cm := m0); auto.
+        - apply imported_comps_all. exact Hc.
+        - pose proof (C_bound None (cname c)). lia. }
+      destruct (none_found _ (imported_comps m0) s1) as [[b2 s2]| |]; cbn [fine] in G2 |- *; auto.
+      destruct b2; [exact G2|].
+      pose proof (model_test_total fuel RESOLVED s2 G2 Hf) as G3. unfold has_unresolved_imports.
+      destruct (model_test fx fuel RESOLVED s2 m0) as [b3| |]; cbn [fine] in G3 |- *; auto.
+      destruct b3; cbn; [exact G2|apply same_ll_add; exact G2]. }
+    unfold flatten_precheck.
+    destruct (has_import_issues fx fuel (clear_issues st) m0) as [[b s]| |]; cbn in G; [|discriminate|contradiction].
+    destruct b; [discriminate|].
+    pose proof (model_test_total fuel DEFINED s G Hf) as G3. unfold is_defined.
+    destruct (model_test fx fuel DEFINED s m0) as [b3| |]; cbn in G3; [destruct b3; discriminate|discriminate|contradiction].
+  Qed.
+End ScanTotal.
+
+Lemma flatten_precheck_total_spec : forall fx st m0 urank crank Bu Bc,
+  NoSelfDependence st m0 urank crank Bu Bc ->
+  forall fuel, Bu + Bc <= fuel -> flatten_precheck fx fuel st m0 <> OutOfFuel.
+Proof.
+  intros fx st m0 urank crank Bu Bc (H1 & H2 & H3 & H4 & H5 & H6).
+  eapply flatten_precheck_total; eauto.
+Qed.
+
+(* non-vacuity: the state reached by resolving the example of [nonvacuous] has no self-dependence *)
+Definition ex_st : state := st_of (run1 ex_fs empty_state ex_m0).
+
+Lemma ex_content : forall o cm, content ex_st ex_m0 o = Some cm ->
+  (o = None /\ cm = ex_m0) \/ (o = Some (mk_key "f1") /\ cm = ex_m1).
+Proof.
+  intros [k|] cm E; [|left; inversion E; auto]. right. cbn [content] in E.
+  change (lib ex_st) with [(mk_key "f1", ex_m1)] in E. cbn [lib_get] in E.
+  destruct (String.eqb (mk_key "f1") k) eqn:Ek; [|discriminate]. apply String.eqb_eq in Ek. inversion E. subst. auto.
+Qed.
+
+Lemma total_nonvacuous :
+  exists urank crank Bu Bc, NoSelfDependence ex_st ex_m0 urank crank Bu Bc /\
+    flatten_precheck no_fixes (Bu + Bc) ex_st ex_m0 = Ok (true, clear_issues ex_st).
+Proof.
+  exists (fun o _ => match o with None => 1 | Some _ => 0 end),
+         (fun o _ => match o with None => 1 | Some _ => 0 end), 2, 2.
+  split; [|vm_compute; reflexivity].
+  split; [intros [k|] n; lia|]. split; [intros [k|] n; lia|]. split.
+  { intros o cm n refs r cu E Hin Hr Ef. destruct (ex_content _ _ E) as [[-> ->]|[-> ->]].
+    - destruct Hin as [Habs|[]]. discriminate.
+    - destruct Hin as [Heq|[]]. inversion Heq; subst. destruct Hr. }
+  split.
+  { intros o cm n sid url ref sm iu E Hin El Ef. destruct (ex_content _ _ E) as [[-> ->]|[-> ->]].
+    - lia.
+    - destruct Hin as [Habs|[]]. discriminate. }
+  split.
+  { intros o cm n sid url ref used kids sm ic E Hin El Ef. destruct (ex_content _ _ E) as [[-> ->]|[-> ->]].
+    - lia.
+    - destruct Hin as [Habs|[]]. discriminate. }
+  intros o cm c k E Hin Hk. destruct o; lia.
+Qed.
